@@ -306,7 +306,9 @@ class Popen(AgentExecutingComponent):
 
         # now that the task cancellation cb would succeed, let's make sure that
         # no cancellation request sneaked in before the task got started
-        if self.is_canceled(task) is True:
+        # NOTE: the task must not be advanced here: it is `cancel_task()` which
+        #       kills the process, frees the slots and hands the task over.
+        if self.is_canceled(task, advance=False) is True:
             self.cancel_task(task)
 
 
